@@ -54,11 +54,14 @@ ALPHA = [
 
 # systematic cross of the attributes the verdict could (wrongly) depend on
 SYS = []
-for _cat in ('instructor', 'runtime', 'positive', 'complete'):
+for _cat in ('instructor', 'runtime', 'complete'):
     for _cor in (None, True, False):
         for _val in (-1, 0, 1):
-            for _st in ({}, {'muted': True}, {'activate': False}, {'kind': 'Compliment'},
-                        {'kind': 'Instructional'}, {'unscored': True}, {'score': '+50%'}):
+            for _st in ({}, {'muted': True}, {'activate': False}, {'unscored': True}, {'score': '+50%'},
+                        {'kind': 'Compliment'}, {'kind': 'Instructional'}, {'kind': 'Encouragement'},
+                        {'kind': 'Misconception'}, {'kind': 'Mistake'}, {'kind': 'Hint'}, {'kind': 'Constraint'},
+                        {'kind': 'Metacognitive'}, {'kind': 'Reinforcement'}, {'kind': 'Result'},
+                        {'kind': 'Performance'}, {'kind': 'Meta'}):
                 d = dict(category=_cat, correct=_cor, valence=_val)
                 d.update(_st)
                 SYS.append(d)
